@@ -21,7 +21,7 @@ pub struct C14;
 const STRS: &[&str] = &[
     "", "plain", "with \"quotes\"", "back\\slash", "new\nline", "tab\there", "nul\0byte", "é ü ñ",
     "日本語", "😀 astral", "\u{2028}line sep", "\u{7f}del", "\u{1b}[0m", "'single'", "{braces}",
-    "[brackets]", "a, b", "#null", "[graph node 3]", "  leading", "C:\\temp\\new", "a\\nb", "\\", "ends with \\",
+    "[brackets]", "a, b", "#null", "[graph node 3]", "  leading", "C:\\temp\\new", "a\\nb", "\\", "ends with \\", "cr\r\nlf", "\r", "\n\r",
 ];
 
 fn gen_val<'t>(rng: &mut Rng, graph: &mut Graph<'t>, refs: &[GraphNodeRef], ti: &TreeInfo<'t>, depth: usize) -> Value {
